@@ -91,11 +91,13 @@ func (c18) Gen(r *Rng, tier string, emit func(string, Tok)) {
 			op := []int{3, 4}[r.Intn(2)]
 			ch := []int{r.Range(1, 250)}
 			emit("reader-fault", L(I(1), scenario{kind: kind, optSize: opt, fault: off, chunks: ch, data: data, ops: []int{op}}.tok()))
+			// the same failure point with an error that wraps io.EOF / io.ErrUnexpectedEOF (not end of input: only io.EOF itself is)
+			emit("reader-fault-wrapping-eof", L(I(1), scenario{kind: kind + 20*r.Range(1, 2), optSize: opt, fault: off, chunks: ch, data: data, ops: []int{op}}.tok()))
 		}
 		// inside the detection window, every offset, every reader kind
 		for off := 0; off <= 200; off += scale(tier, 2, 1) {
 			for kind := 0; kind < 3; kind++ {
-				emit("reader-fault-detect", L(I(1), scenario{kind: kind, optSize: 0, fault: off, chunks: []int{r.Range(1, 64)}, data: data, ops: []int{[]int{3, 4}[r.Intn(2)]}}.tok()))
+				emit("reader-fault-detect", L(I(1), scenario{kind: kind + 20*(off%3), optSize: 0, fault: off, chunks: []int{r.Range(1, 64)}, data: data, ops: []int{[]int{3, 4}[r.Intn(2)]}}.tok()))
 			}
 		}
 	}
